@@ -32,7 +32,7 @@ COMPONENTS = {
 }
 ASSUMPTIONS = [
     'thread interleaving inside prange is not controlled (no Cython to add hooks); the partition (worker count, chunking, thread limit) is',
-    'the laminate matrix used for stresses is the one read_stack builds for the same definition (C01 is not re-decided here)',
+    'the laminate matrix used as reference for the stresses is computed by an independent classical-lamination-theory routine (sim/refmodels.clt_abd)',
     'each object is brought to a defined state with calc_k0() first; first-call behaviour on fresh objects is C20',
     'the quadratic strain terms of the shipped kernel are a known finding (sum of per-term squares); it is matched only when the observed value equals that documented formula',
 ]
@@ -90,6 +90,9 @@ def gen_panel(rng, models=MODELS, mmax=14):
          'm': rng.choice([1, 2, 3, 4, 5, 6, 8, rng.randint(1, mmax)]), 'n': rng.choice([1, 2, 3, 4, 5, 6, 8, rng.randint(1, mmax)]),
          'flags': gen_flags(rng), 'stack': rng.choice(STACKS), 'plyt': 1.25e-4,
          'offset': rng.choice([0.0, 0.0, 2e-4, -1e-4])}
+    if rng.random() < 0.3:
+        # per-ply thicknesses (repeated angles get different thicknesses)
+        d['plyts'] = [rng.choice([0.5e-4, 1.25e-4, 2e-4, 3e-4]) for _ in d['stack']]
     return d
 
 
@@ -251,8 +254,12 @@ def build_panel(d):
     if 'kpanel' in d['model']:
         p.alphadeg = d['alphadeg']
     p.stack = d['stack']
-    p.plyt = d['plyt']
-    p.laminaprop = LAMPROP
+    if d.get('plyts'):
+        p.plyts = list(d['plyts'])
+        p.laminaprops = [LAMPROP for _ in d['stack']]
+    else:
+        p.plyt = d['plyt']
+        p.laminaprop = LAMPROP
     p.m, p.n = d['m'], d['n']
     p.offset = d.get('offset', 0.0)
     for f, v in d['flags'].items():
@@ -395,7 +402,7 @@ def reference_for(obj, c, xs, ys, dofs, r, nl, F):
                 wres = {'tol': {}}
                 for i, nm in enumerate(STRESSES):
                     val = sum(Fl[i, j] * st[k][0] for j, k in enumerate(STRAINS))
-                    tol = sum(abs(Fl[i, j]) * st[k][1] for j, k in enumerate(STRAINS))
+                    tol = sum(abs(Fl[i, j]) * (st[k][1] + 1e-11 * np.abs(st[k][0])) for j, k in enumerate(STRAINS))
                     res[nm] = (val, tol * 2)
                     if wrong is not None:
                         wres[nm] = sum(Fl[i, j] * (wrong[k] if k in wrong else st[k][0]) for j, k in enumerate(STRAINS))
@@ -530,7 +537,12 @@ def execute(scen):
             c = make_c(scen['c'], p.get_size(), dofs)
             xs, ys = make_points(scen['points'], p.a, p.b)
             pts = scen['points']
-            F = np.array(p.F, dtype=float) if p.F is not None else None
+            # laminate matrix from an independent classical-lamination-theory computation (not from compmech.composite)
+            from .refmodels import clt_abd
+            plyts_ = list(d['plyts']) if d.get('plyts') else [d['plyt']] * len(d['stack'])
+            F = clt_abd(d['stack'], plyts_, [LAMPROP] * len(d['stack']), d.get('offset', 0.0)) if p.F is not None else None
+            if F is not None and np.abs(F - np.array(p.F, dtype=float)).max() > 1e-10 * np.abs(F).max():
+                bump(res['probes'], 'package_laminate_matrix_differs_from_CLT')
             Fgiven = None
             if scen.get('F_given') and F is not None:
                 Fgiven = F * 1.5 + np.triu(np.ones_like(F), 1) * F[0, 0] * 1e-3  # unsymmetric table supplied by the caller
@@ -597,7 +609,7 @@ def execute(scen):
                 p.laminaprops = [LAMPROP for _ in rl['stack']]
                 p.plyt = rl['plyt']
                 p.offset = rl['offset']
-                Fnew = np.array(laminate.read_stack(p.stack, plyts=p.plyts, laminaprops=p.laminaprops, offset=p.offset).ABD, dtype=float)
+                Fnew = clt_abd(p.stack, p.plyts, p.laminaprops, p.offset)
                 p.out_num_cores = scen['workers'][0]
                 got = caller('stress', c, gx, gy, scen['NLterms']) if Fgiven is None else None
                 if got is not None:
@@ -649,7 +661,11 @@ def execute(scen):
                         for bi, p in enumerate(members):
                             gx, gy = default_grid(p.a, p.b, pts['gridx'], pts['gridy'])
                             cp = c[p.col_start:p.col_end]
-                            refs, wrongs = reference_for(p, cp, gx, gy, 3, p.r, nl, np.array(p.F, dtype=float))
+                            from .refmodels import clt_abd
+                            pdx = scen['panels'][panels.index(p)]
+                            plyts_ = list(pdx['plyts']) if pdx.get('plyts') else [pdx['plyt']] * len(pdx['stack'])
+                            Fp = clt_abd(pdx['stack'], plyts_, [LAMPROP] * len(pdx['stack']), pdx.get('offset', 0.0))
+                            refs, wrongs = reference_for(p, cp, gx, gy, 3, p.r, nl, Fp)
                             key = 'uvw' if q == 'uvw' else (q, nl)
                             blk = {nm: got[nm][bi] for nm in names}
                             ctx = {'host': 'assembly', 'panel_index': panels.index(p), 'group': group, 'workers': w,
